@@ -120,7 +120,9 @@ func c16WellFormed(sets []c16Set) bool {
 		return false
 	}
 	okW := func(w c16Week) bool { return w.Day >= 0 && w.Day <= 6 && w.Pos >= 0 && w.Pos <= 5 }
-	okC := func(c c16Clock) bool { return (c.H >= 0 && c.H <= 23 && c.M >= 0 && c.M <= 59) || (c.H == 24 && c.M == 0) }
+	okC := func(c c16Clock) bool {
+		return (c.H >= 0 && c.H <= 23 && c.M >= 0 && c.M <= 59) || (c.H == 24 && c.M == 0)
+	}
 	for _, s := range sets {
 		if len(s.Weeks)+len(s.Clocks) == 0 {
 			return false
@@ -312,10 +314,10 @@ func c16EvenSplit(cs c16ClockSpan) bool {
 }
 
 const (
-	c16Strict = iota // documented semantics, exact
-	c16Loose         // upper envelope: unsplit spans, whole eligible day for sets without times
-	c16Wrapped       // F-C16-1 classification only: sub-spans after midnight put on the anchor day's morning
-	c16LooseWrapped  // F-C16-1 classification only: c16Loose plus the anchor day's morning for split spans over midnight
+	c16Strict       = iota // documented semantics, exact
+	c16Loose               // upper envelope: unsplit spans, whole eligible day for sets without times
+	c16Wrapped             // F-C16-1 classification only: sub-spans after midnight put on the anchor day's morning
+	c16LooseWrapped        // F-C16-1 classification only: c16Loose plus the anchor day's morning for split spans over midnight
 )
 
 // c16Windows lists the windows of all sets anchored on days dLo..dHi.
@@ -373,10 +375,10 @@ func c16Windows(sets []c16Set, zoneOff int, dLo, dHi int64, mode int) []c16Win {
 
 // c16Expect is what the documentation lets timeutil.Next return.
 type c16Expect struct {
-	Fallback  bool    // the postponement limit comes first
-	Immediate bool    // delay must be 0
-	Limit     int64   // last+max
-	At        int64   // earliest qualifying window start (when !Fallback)
+	Fallback  bool     // the postponement limit comes first
+	Immediate bool     // delay must be 0
+	Limit     int64    // last+max
+	At        int64    // earliest qualifying window start (when !Fallback)
 	Chosen    []c16Win // qualifying windows starting at At (ties)
 	TieLimit  []c16Win // qualifying windows starting exactly at the limit
 }
